@@ -294,17 +294,6 @@ def gen_time(rng, clock, exact_bias=0.35, max_steps=MAX_STEPS):
     return {"start": start, "end": start + span, "step": step}
 
 
-def one_type(t):
-    """InteractiveContext.run_until insists that the end time and the clock value have the same python type; the clock
-    value becomes a float as soon as start or step is one.  For the interactive drivers keep a SimpleClock configuration
-    of one type (all int when everything is whole, else all float) - mixing them raises ValueError there, which is a type
-    check of that driver and not the subject of this property."""
-    vals = (t["start"], t["end"], t["step"])
-    if all(float(x).is_integer() for x in vals):
-        return {k: int(v) for k, v in t.items()}
-    return {k: float(v) for k, v in t.items()}
-
-
 def zero_length(t):
     return t["days"] <= 0 if "days" in t else t["end"] <= t["start"]
 
@@ -328,9 +317,6 @@ def add_session(rng, case):
     start: on and off the step grid, zero, in the past, not monotone)"""
     t = case["time"]
     step = t["step"]
-    if case["clock"] == "simple":
-        t = case["time"] = one_type(t)
-        whole = isinstance(t["start"], int)
     ends = []
     for _ in range(rng.randint(1, 4)):
         k = rng.randint(0, 6)
@@ -339,10 +325,12 @@ def add_session(rng, case):
             base = int(round(step * 24 * k))                                  # hours
             off = base if r < 0.35 else base + rng.choice([-1, 1, 5]) if r < 0.6 else rng.randint(-30, int(step * 24 * 7) + 1)
         else:
-            unit = 1 if whole else 0.25
+            # plain numbers of either python type, whatever the types of start / step (since /repo af5a6c59 the interactive
+            # drivers accept any pair of plain numbers; before, mixing int and float raised ValueError: F-AE)
+            unit = rng.choice([1, 0.25])
             base = step * k
             off = base if r < 0.35 else base + rng.choice([-unit, unit]) if r < 0.6 else rng.randint(-4, 28) * unit
-            off = int(off) if whole else float(off)
+            off = int(off) if (float(off).is_integer() and rng.random() < 0.6) else float(off)
         ends.append(off)
     case["driver"] = 6
     case["ends"] = ends
@@ -380,8 +368,6 @@ def gen_sim(rng: random.Random):
     clock = rng.choice(["datetime", "simple"])
     t = gen_time(rng, clock, max_steps=16)
     d = pick_driver(rng, t, [0, 0, 1, 2, 3])
-    if clock == "simple" and d in (1, 5):
-        t = one_type(t)
     case = {"clock": clock, "time": t, "driver": d, "pop": rng.randint(1, 4),
             "comps": [gen_comp(rng, i) for i in range(rng.randint(1, 6))]}
     if rng.random() < 0.2:
@@ -394,8 +380,6 @@ def gen_grid(rng: random.Random):
     t = gen_time(rng, clock, exact_bias=0.5)
     h = rng.choice([4, 5, 6, 7])
     d = pick_driver(rng, t, [0, 1, 3])
-    if clock == "simple" and d in (1, 5):
-        t = one_type(t)
     case = {"clock": clock, "time": t, "driver": d, "pop": 1,
             "comps": [{"hooks": {str(h): None, "3": None}, "hand": []}]}
     if rng.random() < 0.3:
@@ -418,6 +402,10 @@ def grid_corpus():
         mk("simple", {"start": 0, "end": 6, "step": 2}), mk("simple", {"start": 0, "end": 6, "step": 2}, 1),
         mk("simple", {"start": 0, "end": 6.25, "step": 2}), mk("simple", {"start": 0, "end": 5.75, "step": 2}, 3),
         mk("simple", {"start": 1, "end": 1, "step": 0.5}, 4), mk("simple", {"start": -3, "end": 0.25, "step": 0.25}),
+        # F-AE (fixed by /repo af5a6c59): int start/end with a fractional step under the interactive drivers
+        mk("simple", {"start": 0, "end": 4, "step": 0.5}, 1), mk("simple", {"start": 0, "end": 4, "step": 0.5}, 5),
+        dict(mk("simple", {"start": 0, "end": 9, "step": 1.5}, 6), ends=[3, 3.25, 0, 7], via=["until", "for", "until", "for"]),
+        dict(mk("simple", {"start": 0.5, "end": 9, "step": 2}, 6), ends=[4, 5.0], via=["for", "until"]),
     ] + ([mk("datetime", {"start": [2005, 7, 1], "days": 0, "step": 1}, 0), mk("simple", {"start": 1, "end": 1, "step": 1}, 2)]
          if is_open_finding(PROPERTY, "F-V") else [])
 
@@ -867,8 +855,6 @@ def gen_raise(rng: random.Random):
             break
     case = {"clock": clock, "time": t, "driver": rng.choice([0, 2, 1]), "pop": rng.randint(1, 3),
             "comps": [gen_comp(rng, i) for i in range(rng.randint(1, 4))]}
-    if clock == "simple" and case["driver"] == 1:
-        case["time"] = one_type(t)
     regs = expected_regs(case)
     ch = rng.choice(LISTEN_CHANNELS)
     used = {b for b, _, _ in regs.get(ch, [])}
